@@ -84,6 +84,15 @@ add("C20", "proptest-sharded+real-CLI",
     "Generated models (.zst) x input streams (empty lines, NUL, delimiters, half-width characters) x all 16 flag subsets x wsconst lists for predict; generated tokenized references x metrics x flags for evaluate; stdout compared with the library pipeline, exit status and panics checked.",
     "Under-specified spots are accepted in all reasonable variants (see evidence assumptions); lines ending in CR excluded by construction.")
 
+add("C16", "enumeration+proptest-sharded (separate binary vcheck-tantivy)",
+    "exhaustive enumeration of all Unicode scalar values for the normaliser + property-based testing of the Tantivy token stream against the library pipeline (invariants + differential)",
+    "Normaliser: all 1,112,064 scalar values enumerated (one character out, idempotent, identity outside the pinned 96 table sources) plus random strings (character-wise). Token stream: generated models x texts x wsconst strings; offsets on char boundaries, gap-free tiling of the original text, original substrings, consecutive positions, break set equal to normalise->predict->line-break filter->configured filters.",
+    "Known finding tantivy:nul-in-text (U+0000 panics) is excluded from the main generator by construction and probed separately. Expected breaks are computed from library parts decided by C01/C15.")
+add("C17", "proptest-sharded+prefix-enumeration",
+    "property-based testing: generated structured KyTea files against a reference converter (RefKytea) + exhaustive enumeration of every proper prefix per file",
+    "The harness's own KyTea writer/reader (validated byte-identically on resources/kytea-model.bin) produces structured files with shuffled tries, cut entries, skipped 0x04 letters, 0-8 member dictionaries, tag slots and sub-word dictionaries; the mirror-decoded converted model must equal the reference conversion and predict as RefScore dictates; every proper prefix must give Err (a cut inside the unread tail of a real file may be accepted only with an identical model).",
+    "The L/I/R slot order inside dict_vec is pinned from the converter (no KyTea source offline). Arbitrary corrupt files are outside the property.")
+
 PLANNED = {
 }
 
